@@ -998,7 +998,10 @@ class Extractor:
             raise ExtractionError('expect: %s not found in %s' % (a['name'], a['file']))
         rx = re.compile(a['body'])
         for d in defs:
-            body = re.sub(r'\s+', ' ', src.text[d['body_lb'] + 1:d['body_rb']]).strip()
+            body = src.text[d['body_lb'] + 1:d['body_rb']]
+            for nm in ASSERT_CALLS + DROP_CALLS:  # compiled-out assertions / warnings are not part of the meaning
+                body = _replace_calls(body, nm, lambda a_: '', dict(rules={}), nm)
+            body = re.sub(r'\s+', ' ', body).strip()
             if not rx.fullmatch(body):
                 raise ExtractionError('expect: body of %s::%s is %r, does not match %r' % (a.get('class', ''), a['name'], body, a['body']))
         self.report.setdefault('accessor_checks', []).append(dict(name=a['name'], file=a['file'], body=a['body'], definitions=len(defs)))
